@@ -1284,7 +1284,15 @@ fn main() {
     let n_zones = ctx.budget(1600, 100_000);
     let mut r = Runner { rep: &mut rep, rt, reported: Default::default() };
     for zi in 0..n_zones {
-        let z = refzone::gen_zone(&mut rng, &cfg);
+        let mut z = refzone::gen_zone(&mut rng, &cfg);
+        if zi % 50 == 23 {
+            // a zone that consists of its apex only (single-record NSEC / NSEC3 chain)
+            let others: Vec<refzone::Name> = z.owners().filter(|o| **o != z.apex).cloned().collect();
+            for o in others {
+                z.remove_name(&o);
+            }
+            r.rep.count("apex_only_zones");
+        }
         let zhash = fnv64(&z.canonical_bytes());
         r.rep.count("zones");
         r.rep.add("zone_records", z.records().len() as u64);
